@@ -123,8 +123,10 @@ Trees are build by:
 It is assumed that all leaves are present. The tree will be corrupt when this is not the case.
 */
 func (t *tree) Load(leaves map[uint32][]byte) error {
-	// nothing to load
+	// nothing to load: an empty tree.
+	// Load is also used to discard in-memory changes when a write is rolled back, so the current content must go.
 	if len(leaves) == 0 {
+		t.resetDefaults(t.leafSize)
 		return nil
 	}
 
